@@ -54,6 +54,35 @@ def check(rep, tier):
         k2 = min(1.0, kap * 1.1)
         if k2 > kap and pv > pvac and not U.vapour_flux(k2, m_w, kB, pvac, pv, T, T) > f:
             rep.violation("flux-kappa", "flux does not increase with the evaporation coefficient", dict(kappa=kap, kappa2=k2))
+    # ---- (d) vacuum window: a VISF run equals the shelf run outside the window (1D; 2D in the thorough tier) ------------
+    import snowing_runs as sr
+    prog = dict(start=20, end=-50, rate=2 / 60, holds=[], t_tot=9000.0, dt=1.0)
+    for dim in (["spatial_1D"] if tier == "quick" else ["spatial_1D", "spatial_2D"]):
+        geo = dict(height=0.05, diameter=0.05 if dim == "spatial_1D" else 0.1, K=300)
+        try:
+            Sshelf = sr.make(dim=dim, conf="shelf", prog=prog, **geo); sr.run(Sshelf)
+            for ts, td, kind in ((5.0, 0.1, "after-the-process"), (0.2, 0.1, "inside")):
+                Sv = sr.make(dim=dim, conf="VISF", prog=prog, extra={"VISF": {"t_vac_start": ts, "t_vac_duration": td, "kappa": 0.01}}, **geo); sr.run(Sv)
+                rep.case(("window", dim, kind), True)
+                Ta, Tb = np.asarray(Sshelf.temp), np.asarray(Sv.temp)
+                ta, tb = np.asarray(Sshelf.time) * 3600, np.asarray(Sv.time) * 3600
+                if kind == "after-the-process":
+                    if Ta.shape != Tb.shape or not np.array_equal(Ta, Tb) or not np.array_equal(np.asarray(Sshelf.iceMassFraction), np.asarray(Sv.iceMassFraction)) \
+                            or not Sshelf.results.equals(Sv.results):
+                        rep.violation("window-outside-differs", "%s: with the vacuum window after the end of the process the VISF run differs from the shelf run" % dim, dict(dim=dim, t_vac_start=ts))
+                else:
+                    n = min(len(ta), len(tb))
+                    before = (ta[:n] <= ts * 3600) & (tb[:n] <= ts * 3600)
+                    if not np.array_equal(Ta[:n][before], Tb[:n][before]):
+                        rep.violation("window-before-differs", "%s: VISF and shelf runs differ before the vacuum window opens" % dim, dict(dim=dim, t_vac_start=ts))
+                    inside = (tb > ts * 3600 + 5) & (tb < (ts + td) * 3600)
+                    k = np.nonzero(inside)[0]
+                    if len(k) and k[-1] < n:
+                        top_v = Tb[k[-1]].reshape(Tb.shape[1], -1)[-1].mean(); top_s = Ta[k[-1]].reshape(Ta.shape[1], -1)[-1].mean()
+                        if not top_v < top_s - 1e-6:
+                            rep.violation("window-no-cooling", "%s: inside the vacuum window the top surface is not colder than in the shelf run (%r vs %r)" % (dim, top_v, top_s), dict(dim=dim))
+        except Exception as e:
+            rep.violation("window-run-crash %s" % type(e).__name__, "%s VISF/shelf comparison raises %r" % (dim, e), dict(dim=dim))
     # ---- (b) certificates: generated R definitions agree with the Python functions ----------------------------
     goals = []
     ncert = 20 if tier == "quick" else 400
